@@ -17,4 +17,13 @@ def cells(tier):
     out += make_cells(PID, 'report', tier, N=3, thin=plain, extra={'prehist': True}, suffix='after-roReplace')
     # ... and after a series of refused messages (what a non-strict collection merge leaves behind)
     out += make_cells(PID, 'report', tier, N=3, thin=plain, extra={'prefail': True}, suffix='after-refused-messages')
+    # the smallest shapes: one story / item, and every story / item of the container named by the message
+    def small(n):
+        def f(op, story_k, tk, sk, nk):
+            need = (sk or []).count('existing') + (1 if tk == 'existing' and sk else 0)
+            return need <= n and (nk is None or nk in (['fresh'], ['fresh', 'fresh'])) and story_k in (None, 'existing')
+        return f
+    out += make_cells(PID, 'report', tier, N=1, thin=small(1), suffix='single-element')
+    out += make_cells(PID, 'report', tier, N=2, thin=lambda op, story_k, tk, sk, nk: small(2)(op, story_k, tk, sk, nk) and
+                      (sk or []).count('existing') == 2, suffix='all-elements-named')
     return out
